@@ -376,6 +376,31 @@ pub fn shuffle_names(m: &mut Model, rng: &mut Rng) {
     }
 }
 
+/// Terminal names that are easy to confuse: equal after snake_case conversion (`AB` / `A_b`),
+/// equal up to case, proper prefixes of each other, differing only in underscores or digits.
+pub fn confusable_terminal_names(m: &mut Model, rng: &mut Rng) {
+    const GROUPS: &[&[&str]] = &[
+        &["AB", "A_b", "Ab", "A_B", "AbC", "A_bC"],
+        &["Num", "NumLit", "Num_lit", "NumLit2", "Num_", "Nu"],
+        &["FooBar", "Foo_bar", "Foobar", "FOOBAR", "Foo_Bar", "FooBar_"],
+        &["X", "X_", "X1", "X_1", "XX", "X__1"],
+        &["IntLit", "Int_lit", "Intlit", "IntLIT", "Int", "I_nt_lit"],
+    ];
+    let g = rng.pick(GROUPS);
+    if m.terms.len() > g.len() {
+        return;
+    }
+    let mut names: Vec<&str> = g.to_vec();
+    rng.shuffle(&mut names);
+    let taken: Vec<String> = m.nts.iter().map(|n| n.name.clone()).chain(std::iter::once(m.term_enum.clone())).collect();
+    if names.iter().take(m.terms.len()).any(|n| taken.iter().any(|t| t == n)) {
+        return;
+    }
+    for (t, n) in m.terms.iter_mut().zip(names) {
+        t.name = n.to_string();
+    }
+}
+
 /// Build a model from a plain CFG with default names and all-skipped tuple fields.
 pub fn model_from_cfg(cfg: &Cfg, force_enum: &[bool]) -> Model {
     let mut nts = vec![];
